@@ -120,10 +120,11 @@ Proof. exact silent_outside_table. Qed.
    a set message of its node/child/sub-type and is carriable; every pending desired value is
    carriable (that it validates is Inv of C01); every withheld string, every queued send job and
    every string in the transport log is the encoding of a carriable message that validates;
-   firmware data are bytes.  It holds in every reachable state. *)
+   firmware data are bytes.  It holds in every reachable state (op_wire: controller calls with
+   carriable values and C01's firmware images; set_child_value's node id is arbitrary). *)
 Theorem C05_invariant_reachable :
   forall orc clock v cf ops,
-    cf_tab cf = tab_of v -> cf_ge20 cf = ge20 v -> Forall (op_wire cf) ops ->
+    cf_tab cf = tab_of v -> cf_ge20 cf = ge20 v -> Forall op_wire ops ->
     let g := run orc clock (gw_init cf) ops in Inv5 orc v g /\ Inv orc g /\ cfgv v g.
 Proof. exact reachable_Inv5. Qed.
 
@@ -135,35 +136,33 @@ Theorem C05_logic_keeps_invariant :
     Inv5 orc v g' /\ forall s, r = Some s -> good orc v s.
 Proof. exact logic5. Qed.
 
+(* what op_wire demands of a history's controller calls: only that set_child_value is given a
+   value the wire format can carry and update_fw an image as in C01 - nothing about node ids *)
+Theorem C05_op_wire_reading : forall o,
+  op_wire o <-> match o with
+                | SetChild _ _ _ x _ _ => carriable x
+                | UpdateFw _ _ _ b => image_ok b
+                | _ => True
+                end.
+Proof. exact op_wire_reading. Qed.
+
 (* Over ALL histories from the initial state, both flavours, any inbound text, controller calls
-   with carriable values (op_wire): every string ever handed to the transport, every queued send
-   job and every withheld string is canonical, decodes to the message it encodes, which validates
-   for the configured version and carries a node id in 0..255 (withheld: the id of the node in
-   whose queue it waits).  _partial: op_wire also demands, on a >= 2.0 gateway, that the node id
-   passed to set_child_value is in 0..255 - without it the statement is false (below). *)
-Theorem C05_emitted_canonical_valid_partial :
+   with carriable values and ANY node / child id (op_wire): every string ever handed to the
+   transport, every queued send job and every withheld string is canonical, decodes to the message
+   it encodes, which validates for the configured version and carries a node id in 0..255
+   (withheld: the id of the node in whose queue it waits).  Full statement: is_sensor asks only a
+   node id in range(BROADCAST_ID + 1) to present itself (finding D20, fixed in the library; the
+   former _partial needed 0 <= node id <= 255 for set_child_value on a >= 2.0 gateway and the
+   former _refuted exhibited "300;255;3;0;19;\n"). *)
+Theorem C05_emitted_canonical_valid :
   forall orc clock cf ops,
-    cfg_ok cf -> Forall (op_wire cf) ops ->
+    cfg_ok cf -> Forall op_wire ops ->
     let g := run orc clock (gw_init cf) ops in
     (forall l, In (ESend l) (g_log g) -> line_ok orc g l) /\
     (forall l, In (JSend l) (g_jobs g) -> line_ok orc g l) /\
     (forall k nd l, get_node g k = Some nd -> In l (n_queue nd) ->
        line_ok orc g l /\ exists m, decode l = Some m /\ m_node m = k).
-Proof. exact emitted_canonical_valid_partial. Qed.
-
-(* FINDING: set_child_value(300, 0, 2, "1") on a 2.2 gateway hands "300;255;3;0;19;\n" to the
-   transport: a presentation request to a node id that no protocol version accepts. *)
-Theorem C05_emitted_canonical_valid_refuted :
-  exists cf ops l m,
-    cfg_ok cf /\
-    Forall (fun o => match o with
-                     | SetChild _ _ _ x _ _ => carriable x
-                     | UpdateFw _ _ _ b => image_ok b
-                     | _ => True
-                     end) ops /\
-    let g := run no_oracles 0 (gw_init cf) ops in
-    In (ESend l) (g_log g) /\ decode l = Some m /\ gvalidate no_oracles g m = false.
-Proof. exact emitted_canonical_valid_refuted. Qed.
+Proof. exact emitted_canonical_valid. Qed.
 
 (* the building blocks: each prescribed kind of reply validates for every version that sends it *)
 Theorem C05_replies_validate :
@@ -220,7 +219,8 @@ Theorem C05_reply_addressing :
 Proof. exact reply_addressing. Qed.
 
 (* the controller call set_child_value: the commands it emits or withholds (closed form
-   set_child_commands: a presentation request to sid when node or child is unknown on >= 2.0;
+   set_child_commands: a presentation request to sid when node or child is unknown on >= 2.0
+   and sid is a node id, 0..255;
    nothing while the node sleeps - the value is stored as desired state; else the validated set
    command with the caller's message type / ack) all carry the node id given by the caller *)
 Theorem C05_set_child_value_addressing :
@@ -299,6 +299,22 @@ Example C05_ex_id_response_copies_child :
   sends (g_log (run no_oracles 0 (gw_init cf22) [Recv (s2p "255;-3;3;1;3;")])) = [s2p "255;-3;3;0;4;1" ++ [nl]].
 Proof. exact ex_id_response_copies_child. Qed.
 
+(* the former witness of C05_emitted_canonical_valid_refuted: set_child_value(300, 0, 2, "1") on a
+   2.2 gateway (asyncio and threaded) satisfies op_wire and now changes nothing: no command is
+   sent, queued or withheld *)
+Example C05_ex_set_child_out_of_range_silent :
+  let ops := [SetChild 300 0 (VtInt 2) (PS (s2p "1")) None None] in
+  Forall op_wire ops /\
+  run no_oracles 0 (gw_init cf22) ops = gw_init cf22 /\
+  run no_oracles 0 (gw_init cf22t) ops = gw_init cf22t.
+Proof. exact ex_set_child_out_of_range_silent. Qed.
+
+(* an unknown node with a valid id is still asked to present itself *)
+Example C05_ex_set_child_unknown_in_range :
+  sends (g_log (run no_oracles 0 (gw_init cf22) [SetChild 200 0 (VtInt 2) (PS (s2p "1")) None None])) =
+  [s2p "200;255;3;0;19;" ++ [nl]].
+Proof. exact ex_set_child_unknown_in_range. Qed.
+
 Print Assumptions C05_configurations.
 Print Assumptions C05_type_resolution.
 Print Assumptions C05_internal_resolution.
@@ -312,8 +328,8 @@ Print Assumptions C05_no_spurious_output_rejected.
 Print Assumptions C05_no_spurious_output_silent.
 Print Assumptions C05_invariant_reachable.
 Print Assumptions C05_logic_keeps_invariant.
-Print Assumptions C05_emitted_canonical_valid_partial.
-Print Assumptions C05_emitted_canonical_valid_refuted.
+Print Assumptions C05_op_wire_reading.
+Print Assumptions C05_emitted_canonical_valid.
 Print Assumptions C05_replies_validate.
 Print Assumptions C05_validate_ack_independent.
 Print Assumptions C05_prescribed_addressing.
